@@ -78,6 +78,24 @@ def terms():
     from kernel.term import SVar
     sp, sn = SVar('sp', BoolType), SVar('sn', NatType)
     ts += [And(sp, Eq(sn, Nat(0))), Eq(sn + x, x + sn), Implies(sp, And(sp, q(sn))), Forall(z, Eq(z + sn, sn + z)), And(Eq(sn, Nat(0)), x < sn)]
+    # binder stacks: nested annotated binders whose types repeat non-adjacently, a closed inner abstraction as an argument, and
+    # the outer bound variables used after the inner binder has been closed (the binder context must be restored exactly)
+    tys = (NatType, BoolType)
+    k = 0
+    for T1 in tys:
+        for T2 in tys:
+            for T3 in tys:
+                bx, by, bz, bw = Var('bx_', T1), Var('by_', T2), Var('bz_', T3), Var('bw_', T1)
+                for deep in (False, True):
+                    inner = ab('z', bz, ab('w', bw, bz)) if deep else ab('z', bz, bz)
+                    G = Var('Gs%d' % k, TFun(inner.get_type(), T1, T2, NatType))
+                    DECL[G.name] = G.T
+                    k += 1
+                    ts.append(ab('x', bx, ab('y', by, G(inner, bx, by))))
+                    if not deep:
+                        H = Var('Hs%d' % k, TFun(T2, inner.get_type(), T1, T2, BoolType))
+                        DECL[H.name] = H.T
+                        ts.append(ab('x', bx, ab('y', by, H(by, inner, bx, by))))
     _T['terms'] = ts
     return ts
 
